@@ -2,6 +2,7 @@
 from __future__ import annotations
 
 import asyncio
+import hashlib
 import shutil
 import traceback
 
@@ -407,6 +408,68 @@ def string_case(args) -> dict:
     return out
 
 
+def large_case(args) -> dict:
+    """One shard of more than 16 MiB (size thresholds of codecs, buffers and
+    chunked I/O): 5 examples of float32 (1024, 1024) + a scalar label."""
+    fmt, comp, seed = args
+    root = core.fresh_dir("c01L")
+    out = {"args": list(args), "bad": [], "cells": 0, "rejected": 0,
+           "unsupported": 0, "harness": None}
+    try:
+        from sedpack.io import Dataset, Metadata
+        from sedpack.io.metadata import Attribute, DatasetStructure
+        ds_ = Dataset.create(
+            path=root, metadata=Metadata(),
+            dataset_structure=DatasetStructure(
+                saved_data_description=[
+                    Attribute(name="label", dtype="int8", shape=()),
+                    Attribute(name="big", dtype="float32",
+                              shape=(1024, 1024))],
+                compression=comp, examples_per_shard=8,
+                shard_file_type=fmt, hash_checksum_algorithms=("md5",)))
+        rng = np.random.default_rng(seed + 17)
+        want = []
+        with ds_.filler() as f:
+            for q in range(5):
+                big = rng.integers(0, 2**32, (1024, 1024),
+                                   dtype=np.uint32).view(np.float32)
+                big[np.isnan(big)] = np.float32(q)  # NaN payloads: see above
+                f.write_example(values={"label": np.int8(q - 2),
+                                        "big": big}, split="train")
+                want.append((q - 2, hashlib.md5(
+                    np.ascontiguousarray(big).tobytes()).hexdigest()))
+        ds_ = Dataset(root)
+        for iface, got in read_all(ds_, fmt, comp, "quick").items():
+            if isinstance(got, str):
+                # int8 and float32 are supported by every reader
+                out["bad"].append(
+                    ("large", iface,
+                     f"{fmt}/{comp or 'none'} one shard of 20 MiB: reader "
+                     f"{iface} fails: {got}"))
+                continue
+            out["cells"] += 5
+            have = []
+            for ex in got:
+                b = np.ascontiguousarray(np.asarray(ex["big"]).astype(
+                    np.float32, copy=False))
+                have.append((int(np.asarray(ex["label"]).reshape(-1)[0]),
+                             hashlib.md5(b.tobytes()).hexdigest()))
+            if have != want:
+                out["bad"].append(
+                    ("large", iface,
+                     f"{fmt}/{comp or 'none'} one shard of 20 MiB: reader "
+                     f"{iface} returns {len(have)} examples, "
+                     f"{sum(a == b for a, b in zip(have, want))} of 5 "
+                     f"identical to what was written"))
+    except Exception as e:  # pylint: disable=broad-except
+        out["bad"].append(("large", "any",
+                           f"{fmt}/{comp or 'none'} one shard of 20 MiB: "
+                           f"{type(e).__name__}: {str(e)[:160]}"))
+    finally:
+        shutil.rmtree(root, ignore_errors=True)
+    return out
+
+
 def run(ctx):
     from vf import rustbuild
     rustbuild.ensure_ext()
@@ -434,7 +497,12 @@ def run(ctx):
     for c in COMP["tfrec"]:
         strs.append((c,))
     with core.pool() as ex:
+        large = [("fb", c, seed) for c in (
+            COMP["fb"] if thorough else ("", "LZ4", "ZSTD", "GZIP"))]
+        if thorough:
+            large += [("npz", "ZIP", seed), ("tfrec", "GZIP", seed)]
         for name, fn, tasks in (("numeric layouts", numeric_case, num),
+                                ("one 20 MiB shard", large_case, large),
                                 ("all 8/16-bit values", allvalues_case,
                                  allv),
                                 ("tfrec str/bytes", string_case, strs)):
@@ -488,6 +556,8 @@ def replay(case):
     k, a = case["kind"], case["args"]
     if k == "numeric layouts":
         r = numeric_case(tuple(a))
+    elif k == "one 20 MiB shard":
+        r = large_case(tuple(a))
     elif k == "all 8/16-bit values":
         r = allvalues_case(tuple(a))
     else:
